@@ -347,6 +347,7 @@ CORPUS = [
 
 
 def run(ctx):
+    frac = float(os.environ.get("ENG2_SCALE", "1"))      # mutation runs use a fraction of the cases
     ctx.simgrid(["simgrid"])
     ctx.prove()
     exe = fw.build_harness("eng2_dag")
@@ -363,9 +364,9 @@ def run(ctx):
                 c["expect_named"] = {k: (v[0], v[1]) for k, v in c["expect_named"].items()}
     else:
         cases = [dict(c) for c in CORPUS]
-        cases += [gen_api(rng) for _ in range(ctx.n(500, 6000))]
-        cases += [gen_json(rng) for _ in range(ctx.n(120, 1500))]
-        cases += [gen_dax(rng) for _ in range(ctx.n(80, 1000))]
+        cases += [gen_api(rng) for _ in range(int(frac * ctx.n(500, 6000)))]
+        cases += [gen_json(rng) for _ in range(int(frac * ctx.n(120, 1500)))]
+        cases += [gen_dax(rng) for _ in range(int(frac * ctx.n(80, 1000)))]
     ctx.cov["rule"] = ("random workflow scripts over <= 30 activities (execs, host-to-host comms, I/Os on dedicated resources, dyadic "
                        "durations, some of duration 0), hidden topological order, edge density 0.05..0.7, assignment before/after "
                        "creation/start/at later dates, start requests at dates 0 or later, run_until stops aimed at completion "
@@ -599,18 +600,22 @@ def run(ctx):
 META = {
     "level": "proof",
     "text": "Coq theorems over all scripts of the s4u::Activity dependency API (create, add_successor, remove_successor, assign, start, "
-            "run_until, run; any number of activities, any order, any durations): C13_start_guard — whenever an activity is started or "
-            "finished it is assigned and every declared predecessor finished no later than it started; C13_acyclic_all_finish — from any "
-            "reachable state where all activities are assigned, dependencies are acyclic and unfinished, and dependency-free activities "
-            "have been started, Engine::run() finishes every activity; C13_start_at_max_pred_finish — (scripts without "
-            "remove_successor) the start date is max(latest predecessor finish, assignment date, first start request); "
-            "C13_monitor_sound — the trace monitor used as oracle only accepts logs in which every start signal is preceded by the "
-            "assignment and by the completion of all predecessors declared so far, with that date. The model is tied to the rebuilt "
-            "library by exact differential runs (state, start, finish of every activity) through the API and through the JSON/DAX loaders.",
+            "run_until, run; any number of activities, any order, any durations): C13_start_guard - in every reachable state a started or "
+            "finished activity is assigned and every declared (not removed) predecessor is FINISHED with finish date <= its start date; "
+            "C13_acyclic_all_finish - from any reachable state where all activities are assigned, every unstarted activity still waits for "
+            "an unfinished dependency that lists it as successor, and dependencies decrease some rank (acyclic), Engine::run() finishes "
+            "every activity; C13_start_at_max_pred_finish - (all scripts, remove_successor included) the start date equals max(latest "
+            "predecessor finish, latest assignment date, latest start request); C13_monitor_sound - the trace monitor used as oracle only "
+            "accepts logs where every start signal comes after the assignment and after the completion of all predecessors declared so far, "
+            "at that max date. The model is tied to the rebuilt library by exact differential runs (state, start, finish of every activity, "
+            "final clock, thrown exceptions) through the API and through the JSON and DAX loaders.",
     "note": "Modelled: Activity::{add_successor,remove_successor,start,complete,release_dependencies}, Exec::set_host, Comm::set_source/"
-            "set_destination, Io::set_disk, the event loop for non-sharing activities. Not modelled: failures/cancel/unset_host, "
-            "suspend, resource sharing, the file parsers (correspondence only), DOT loader (not compiled in).",
-    "technique": "Coq proof (state invariants over op sequences, pointwise characterisation of release_dependencies) + extracted-model "
-                 "differential correspondence + verified trace monitor as oracle",
+            "set_destination, Io::set_disk, the event loop for non-sharing activities including run_until's stop rule (what completions "
+            "at the limit date start waits for the next run). Not modelled: failures/cancel/unset_host/suspend, resource sharing, start() or "
+            "a new predecessor on an already started activity (the code re-starts it; scripts avoid it), the file parsers (correspondence "
+            "only), DOT loader (not compiled in). Observed, not a violation: Comm::on_completion fires from CommImpl::finish after "
+            "release_dependencies already started the successors (same date), and Comm::on_start fires twice for host-to-host comms.",
+    "technique": "Coq proof (state invariants over op sequences, pointwise characterisation of release_dependencies, counting argument for "
+                 "liveness) + extracted-model differential correspondence + verified trace monitor as oracle",
     "claimed": False,
 }
